@@ -631,6 +631,28 @@ func checkExpiredAbsent(r *Report, f *ssa.Function) {
 				if it, _, isPred := expiryPredicate(c, "StorageItem", "Expiration", 0); isPred && sameItem(it, base) {
 					return true
 				}
+				// a lookup helper that hands back the item together with a verdict it reached by testing
+				// the item's expiry (`item, state := m.lookupLocked(key)`)
+				if h := c.Common().StaticCallee(); h != nil && h.Pkg == f.Pkg && len(h.Blocks) > 0 {
+					if valueFromCall(base, c) {
+						tests := false
+						Instrs(h, func(x ssa.Instruction) {
+							if hc, ok := x.(*ssa.Call); ok {
+								if CalleeOf(hc).Is("time:Time.IsZero") {
+									if t2, f2, _, ok := FieldOf(hc.Call.Args[0]); ok && t2 == "StorageItem" && f2 == "Expiration" {
+										tests = true
+									}
+								}
+								if _, _, isPred := expiryPredicate(hc, "StorageItem", "Expiration", 0); isPred {
+									tests = true
+								}
+							}
+						})
+						if tests {
+							return true
+						}
+					}
+				}
 				if !CalleeOf(c).Is("time:Time.IsZero") {
 					return false
 				}
